@@ -124,6 +124,8 @@ class Scenario:
         files = {}
         for p, n in zip(paths, names):
             b = pool[n] + bytes(f'#{rng.randint(0, 9)}', 'ascii')
+            if (p == paths[0] and rng.random() < 0.3) or rng.random() < 0.1:
+                b = b'' if rng.random() < 0.7 else bytes([rng.randint(0, 255)])      # boundary sizes: 0 and 1 byte
             if hashref.strip_crlf(b) in used: b += b'x'
             used.add(hashref.strip_crlf(b))
             A.write(p, b); self.table.add(b); files[p] = b
